@@ -625,6 +625,10 @@ pub fn final_step(n: &Uint, fb: &FBase, rels: &[Relation], verbose: Verbosity) -
         filt_rels.push(r);
         matrix.push(v);
     }
+    if matrix.is_empty() {
+        // No relation survived filtering: no kernel to compute.
+        return vec![];
+    }
     if verbose >= Verbosity::Info {
         eprintln!("Filtered {} relations {nfactors} factors", filt_rels.len(),);
         let dense_weight = c64 as f64 / size as f64;
